@@ -6,6 +6,29 @@ import glob, json, os
 # verdict of the FIRST run of the then-registered check against the change, where it differed from the final one, and what was
 # changed in the machinery afterwards (hand-maintained; the final verdict column is regenerated from seeded/*/meta.json)
 FIRST = {
+    # ---- round 4 (wave 4 and older changes re-decided in round 4)
+    "C19-w4m1-debuggingrecorder-describe-metric-is-simplified": "exit 2 (the contract assert was anchored on a code line of the old body) -> anchored at //@BODYEND; reported by the proof",
+    "C19-w4m2-snapshotter-snapshot-gains-an-optimisation-for-h": "exit 2 (closure rule) -> witness confirmation (witness_registered_listed.rs fails on the real crate)",
+    "C17-w4m2-tracingcontext-enhance-key-is-reordered-to-save": "exit 2 (declared rewrite no longer applies: iterator-adapter pipeline) -> witness confirmation on extraction failure (witness_enhanced.rs)",
+    "C06-w4m1-get-or-create-counter-gauge-histogram-the-slow-p": "exit 2 (`|_|` closure parameter outside Verus' subset) -> R41/R42 and hashbrown's raw-entry uniqueness contract as precondition of or_insert*/insert",
+    "C06-w4m2-metrics-src-key-rs-key-hasher-impl-two-label-fas": "exit 0 under C06's check (the change is in key.rs, which C03's check owns: reported there, key_hasher_impl/ensures)",
+    "C05-w4m1-block-is-quiesced-is-simplified-it-loads-the-wri": "exit 2 (the harness used the file's `min` import, which the change removed) -> harnesses spell core::cmp::min",
+    "C10-w4m2-atomichistogram-flush-unsampled-raw-arm-no-longe": "exit 0 (AtomicHistogram had no contract) -> hist.verus.rs: usage contract (flush drains only with the atomic take-and-deliver)",
+    "C12-w4m2-impl-histogramfn-for-generational-t-gains-a-reco": "exit 0 (the harness enumerated the counter / gauge entry points only) -> c12_generational_hist (every HistogramFn entry point)",
+    "C07-w4m1-histogram-record-many-metrics-util-no-longer-tal": "exit 0 under C07's check (the change is in metrics-util's Histogram, which C15's check owns: reported there, c15_record_many_contract)",
+    "C07-w4m2-prometheusrecorder-add-description-if-missing-n": "exit 2 (`hash_map::Entry` not in scope in the template) -> import + SharedString str stubs; vstd specifies Entry::{Occupied,Vacant}",
+    "C15-w3m1-distributionbuilder-new-sorts-the-bucket-overrid": "exit 0 (collect+sort was 'covered by inspection only') -> builder.verus.rs (lifted closure, R39 helper pulled, R38)",
+    "C15-w3m2-rollingsummary-add-replaces-the-step-by-step-sea": "exit 0 (add with stored buckets was not machine-checked) -> rolling.verus.rs (unbounded contract on add)",
+    "C08-help-escaped-only-with-linefeed": "exit 2 (str::contains outside vstd) -> global rewrite R40",
+    "C07-redescribe-with-unit-replaces-help": "exit 2 (`hash_map::Entry` not in scope) -> import; reported by the first-description-wins assert",
+    "C18-plain-ipv6-becomes-slash32": "exit 2 (IpNet::new / split_once outside the template) -> witness confirmation (witness_plain_ip.rs: a plain IPv6 address stands for that host only)",
+    "C19-histogram-blocks-overwritten": "exit 2 (R17 exact-text rewrite) -> witness confirmation (150 values across storage blocks)",
+    "C07-counter-rendered-through-f64": "exit 2 (lost anchor) -> witness confirmation (witness_render_totals.rs: 2^53 + 3 rendered exactly)",
+    "C07-drain-keeps-last-block-only": "exit 2 (R17 exact-text rewrite) -> witness confirmation (witness_render_totals.rs: 200 samples across blocks)",
+    "C09-global-labels-dropped-without-own-labels": "exit 2 (lost anchor: enumerate() pipeline) -> witness confirmation (witness_trailer.rs)",
+    "C10-idle-never-cleared": "exit 2 (a contracted helper was deleted) -> witness confirmation (witness_idle_cycle.rs: two idle periods)",
+    "C20-w3m1-recoveryhandle-into-inner-no-longer-retries-arc-": "exit 2 (spin on strong_count never ends without environment progress) -> c20_into_inner_vs_starting_emissions_rg (environment acts on loads of the strong count too; an emission may start between check and act)",
+    "C05-w3m1-atomicbucket-clear-with-destroys-every-full-batc": "exit 0 (epoch reclamation was out of the harnesses' reach) -> c05b_reclaim_only_deferred (33-block chain, epoch held back)",
     "C09-prefix-separator": "exit 2 (Option::map_or outside vstd) -> prelude of assumed Option combinators",
     "C09-uncommitted-check-prefixed": "exit 2 (ghost anchor was the edited line) -> structural anchors",
     "C06-overwrite-on-lost-race": "exit 2 (RawEntryMut::insert not in the stub) -> stub widened, no-overwrite as stub precondition",
@@ -33,9 +56,9 @@ FIRST = {
     "C08-label-key-leading-digit-unsanitised": "exit 0 (key_to_parts glue was only in C07's plan) -> labels template added to C08's plan; the change rewrites the format!/map/collect chain that R20 replaces, so it is now reported as undecided",
     "C06-clear-skips-last-shard": "exit 0 (Registry::clear had no contract) -> shard-accounting contract on clear; the change fuses the three loops, which the loop-indexed invariants cannot follow, so it is now reported as undecided",
     "C19-gauge-fast-path-uses-counter-lookup": "exit 0 (the register_* methods had no contract) -> contracts on register_counter / gauge / histogram: handle backed by THIS kind's storage, key tracked under THIS kind",
-    "C19-idle-histogram-not-listed": "exit 2 (Bucket stub had no is_empty) -> stub method; the listing contract of snapshot then fails",
-    "C06-delete-by-hash-only": "reported at first (the weak from_hash stub made ANY predicate closure unprovable, also a correct one) -> since the closure rule (a failure in a function that gained a closure without a contract is undecided) it is exit 2: honest, the earlier report was right for the wrong reason",
-    "C18-covered-check-uses-network-base": "exit 2 (IpNet stub lacked contains(&IpNet) / network()) -> stub widened and the contract restated over what the list ADMITS; the change still ends undecided because its test sits in a new closure (and a correct de-duplication would otherwise have been flagged: that false alarm is what the closure rule prevents)",
+    "C19-idle-histogram-not-listed": "exit 2 (Bucket stub had no is_empty) -> stub method; the listing contract of snapshot then fails; round 4: the rewritten arm gains closures (closure rule) -> witness confirmation (witness_registered_listed.rs)",
+    "C06-delete-by-hash-only": "reported at first (the weak from_hash stub made ANY predicate closure unprovable, also a correct one) -> since the closure rule (a failure in a function that gained a closure without a contract is undecided) it is exit 2: honest, the earlier report was right for the wrong reason; round 4: R43 annotates the boolean predicate closure with its own body and from_hash is specified over the predicate's verdict -> reported again, while the correct variant `|k| k == key` ends undecided (generic == has no exec/spec link)",
+    "C18-covered-check-uses-network-base": "exit 2 (IpNet stub lacked contains(&IpNet) / network()) -> stub widened and the contract restated over what the list ADMITS; the change still ends undecided because its test sits in a new closure (and a correct de-duplication would otherwise have been flagged: that false alarm is what the closure rule prevents); round 4: witness confirmation (witness_plain_ip.rs: a later, wider network must be honoured)",
     "C11-wake-only-when-queue-was-empty": "exit 0 (the enqueue side had no contract) -> state.verus.rs: ghost accounting 'an enqueue attempt is followed by a wake'",
     "C11-first-description-sticks": "exit 0 (the metadata arm of run_transport had no boundary) -> arm lifted (R29) and contracted: latest unit / description win",
     "C17-histogram-closure-captures-outer-key": "exit 0 (the register_* forwarders had no contract) -> forwarding contracts on the three methods (a one-line variant of the change is reported); the change itself introduces a helper with closures that is outside the template, so it now ends undecided",
@@ -43,7 +66,6 @@ FIRST = {
     "C01-w3m2-histogram-s-level-only-arm-still-matches-the-who": "exit 0 (the level-only prefix form was exercised without labels) -> harness c01_macro_level_only_labels",
     "C16-w3m2-drain-sample-rate-computes-self-len-as-f64-unsam": "exit 0 (the rate was only read before the first next()) -> c16_rate_and_reset with an arbitrary number of values already taken",
     "C20-w3m2-weakrecorder-describe-counter-gauge-histogram-up": "exit 0 (no harness described with unit None AND an empty description) -> the second description of the argument table is the empty string",
-    "C20-w3m1-recoveryhandle-into-inner-no-longer-retries-arc-": "exit 2 (std::hint::spin_loop is an unsupported intrinsic) -> stubbed; still undecided: the change spins on a plain strong_count load that the R/G stub does not drive (unwinding bound)",
     "C14-w3m2-clone-shared-cow-clone-for-the-shared-kin": "exit 0 (every element type in the harnesses had alignment <= 8) -> c14_slice_shared_overaligned (align 32)",
     "C17-new-span-merges-current-not-parent": "exit 2 expected, not run (Context stub lacked lookup_current) -> stub widened",
     "C17-filter-sees-empty-value": "exit 2 expected, not run (closure annotation keyed to parameter names) -> annotation by position",
